@@ -1339,6 +1339,22 @@ class Interp:
             return [(st, {"v": "sub"})]
         if k == "hole" and rv.get("kind") in ("param",) and rv.get("dyn") and True:
             return [(st, H("mgr", src(e), method=m, args=argv))]
+        if k == "hole":
+            # a private method of a crate type called on a symbolic value of that type: looked into, with `self` bound to the
+            # value (public methods stay symbolic: their names are interface)
+            ty0 = re.sub(r"^(&|mut\s*)+", "", (rv.get("ty") or "").strip())
+            m0 = re.fullmatch(r"(?:Rc|Box|Arc)<(.*)>", ty0)
+            ty0 = m0.group(1) if m0 else ty0
+            ty0 = ty0.split("::")[-1]
+            key0 = "%s::%s" % (ty0, m)
+            fn0 = self.f.fns.get(key0)
+            if fn0 is not None and fn0.node.get("vis") != "pub" and not fn0.test and fn0.node.get("self") is not None and key0 not in getattr(self, "_callstack", []):
+                stack = getattr(self, "_callstack", [])
+                self._callstack = stack + [key0]
+                try:
+                    return self.call_method(key0, argv, st, e, prefix="", self_val=rv)
+                finally:
+                    self._callstack = stack
         if k == "fn":
             pass
         # symbolic method call
@@ -1457,7 +1473,7 @@ class Interp:
             return res
         return None
 
-    def call_method(self, key, argv, st, callnode, prefix=""):
+    def call_method(self, key, argv, st, callnode, prefix="", self_val=None):
         fn = self.f.fns.get(key)
         if fn is None or self.depth >= self.maxdepth:
             return [(st, H("call", src(callnode), callee=key, args=argv))]
@@ -1466,8 +1482,10 @@ class Interp:
             s1 = st.fork()
             saved_env, saved_ret = s1.env, s1.ret
             s1.env = {"__fn": fn, "__selfprefix": prefix, "__layout": saved_env.get("__layout")}
+            if self_val is not None:
+                s1.env["self"] = self_val
             s1.ret = None
-            for (n, ty), v in zip(fn.params, argv):
+            for (n, ty), v in zip([p_ for p_ in fn.params if p_[0] != "self"], argv):
                 if n:
                     s1.env[n] = v
             out = []
